@@ -116,6 +116,8 @@ def correspondence(ctx, model_available=True):
             else:
                 spec_ok += 1
         res.update({"model_vs_impl_agree": agree, "spec_vs_impl_agree": spec_ok, "skipped_unconstrained": skipped})
+    for b in program_level_oracle(rng, quick):
+        res["spec_failures"].append({"what": b})
     res["spec_failures"] = res["spec_failures"][:5]
     res["nontrivial"] = len({(n, tuple(map(tuple, t))) for n, t, _ in cases})
     res["rule"] = ("every pseudo-op class x register operands biased to R0/R11-R15 x immediates and label values at "
@@ -126,7 +128,51 @@ def correspondence(ctx, model_available=True):
     return res
 
 
+COND = {   # branch taken? as a function of the flags (sign, zero, overflow, carry), from the HERA manual
+    "BR": lambda s, z, v, c: True, "BL": lambda s, z, v, c: s != v, "BGE": lambda s, z, v, c: s == v,
+    "BLE": lambda s, z, v, c: (s != v) or z, "BG": lambda s, z, v, c: not ((s != v) or z),
+    "BULE": lambda s, z, v, c: (not c) or z, "BUG": lambda s, z, v, c: c and not z,
+    "BZ": lambda s, z, v, c: z, "BNZ": lambda s, z, v, c: not z, "BC": lambda s, z, v, c: c, "BNC": lambda s, z, v, c: not c,
+    "BS": lambda s, z, v, c: s, "BNS": lambda s, z, v, c: not s, "BV": lambda s, z, v, c: v, "BNV": lambda s, z, v, c: not v,
+}
+
+
+def program_level_oracle(rng, quick):
+    """The label forms inside whole programs, on the real loader and interpreter: `B(label)` continues at the label
+    iff its condition holds, the labels that follow are still where their instructions are, CALL(label) reaches the
+    function and comes back (seed C03e: one label branch was given the wrong length, so later labels moved)."""
+    from hera.data import Settings
+    from hera.loader import load_program
+    from hera.vm import VirtualMachine
+    problems = []
+    masks = [0, 31] + ([rng.randrange(32)] if quick else list(range(1, 31)))
+    for b in BRANCHES:
+        for m in masks:
+            text = ("FSET5(%d)\n%s(first)\nINC(R1, 1)\nLABEL(first)\nINC(R2, 1)\nBR(second)\nINC(R3, 1)\nLABEL(second)\n"
+                    "INC(R4, 1)\nCALL(R12, fun)\nINC(R5, 1)\nHALT()\nLABEL(fun)\nINC(R6, 1)\nRETURN(R12, R13)\n" % (m, b))
+            st = Settings()
+            st.throttle = 200
+            prog, exc, _, _ = run_real(lambda: load_program(text, st))
+            if exc or prog is None:
+                problems.append("loading a program with %s(label) failed: %s" % (b, exc))
+                break
+            vm = VirtualMachine(st)
+            _, exc, _, _ = run_real(lambda: vm.run(prog))
+            s_, z_, v_, c_ = bool(m & 1), bool(m & 2), bool(m & 4), bool(m & 8)
+            taken = COND[b](s_, z_, v_, c_)
+            want = [0 if taken else 1, 1, 0, 1, 1, 1]
+            got = list(vm.registers[1:7])
+            if exc or got != want or not vm.halted:
+                problems.append("FSET5(%d); %s(first) ...: registers R1..R6 end as %r%s, expected %r (the branch is %staken; every "
+                                "label names the instruction after it)" % (m, b, got, " (%s)" % exc if exc else "", want, "" if taken else "not "))
+                break
+    return problems
+
+
 def search(ctx, breaks):
+    bad = program_level_oracle(ctx.rng, False)
+    if bad:
+        return [{"what": b} for b in bad[:3]]
     old = ctx.tier
     ctx.tier = "thorough"
     try:
